@@ -168,6 +168,12 @@ def build_world() -> World:
        "definition (python dict: every key of the dict is enumerated)")
     ax("D-states-len", "forall[Node](lambda n: len(n.states) >= 0, lambda n: len(n.states))", "definition (python dict: a length is not negative)")
 
+    # height(n): length of the longest path below n - exists because the tree is finite (A-tree); used as termination measure of
+    # the recursive entry routine
+    w.fn("height", [Node], INT)
+    ax("T-height", "forall[Node](lambda n: implies(n != None, height(n) >= 0 and height(n) <= height(root) and implies(n.parent != None, height(n) < height(n.parent))), lambda n: height(n))",
+       "assumed: the state tree is finite (A-tree), so every node has a height, smaller than its parent's and at most the root's")
+
     # child_toward(d, t): the child of d on the path down to t (defined when t is a proper descendant of d)
     w.fn("child_toward", [Node, Node], Node)
     ax("T-child-toward", "forall[Node, Node](lambda d, t: implies(anc(t, d) and t != d, child_toward(d, t) != None and child_toward(d, t).parent == d and anc(t, child_toward(d, t))), lambda d, t: child_toward(d, t))",
